@@ -3,7 +3,7 @@
    raw-trace monitors of the pipeline-level properties (C01, C02, C04, C05, C10, C13, C15).
    A trace entry is (objkind objidx kind a b c d): objkind 1 batcher (idx 0 main, 1 dead queue),
    2 stream, 3 processor, 4 pipeline; stream addresses inside a..d are already stream indices. *)
-From Verif Require Import Base.Sx Model.Batcher Model.BatcherGlue Model.Stream.
+From Verif Require Import Base.Sx Model.Batcher Model.BatcherGlue Model.Stream Model.Proc.
 
 Record pentry := { pok : Z; poi : Z; pk : Z; pa : Z; pb : Z; pc : Z; pd : Z }.
 
@@ -77,6 +77,98 @@ Definition batcher_cfgs (c : pcfg) (atomic : bool) : cfg * cfg :=
   ({| workers := p_workers c; maxCount := p_count c; maxBytes := 0; retriable := p_outkind c =? 2; retry := p_retry c;
       deadq := p_deadq c; atomic_push := atomic |},
    {| workers := 1; maxCount := p_count c; maxBytes := 0; retriable := false; retry := 0; deadq := false; atomic_push := atomic |}).
+
+(* ---- processors: every processor's labels are replayed through Model/Proc.v ------------------- *)
+(* per processor: (index, current stream, state) *)
+Record procst := { pr_stream : Z; pr_st : pst }.
+Fixpoint get_proc (l : list (Z * procst)) (i : Z) : option procst :=
+  match l with [] => None | (k, v) :: r => if k =? i then Some v else get_proc r i end.
+Fixpoint set_proc (l : list (Z * procst)) (i : Z) (v : procst) : list (Z * procst) :=
+  match l with [] => [(i, v)] | (k, w) :: r => if k =? i then (k, v) :: r else (k, w) :: set_proc r i v end.
+
+Definition proc_step (n : Z) (ps : list (Z * procst)) (e : pentry) : option (list (Z * procst)) :=
+  if negb (pok e =? 3) then Some ps else
+  let p := poi e in
+  let cur := match get_proc ps p with Some v => v | None => {| pr_stream := -2; pr_st := pinit n |} end in
+  let st := pr_st cur in
+  let upd s' strm := Some (set_proc ps p {| pr_stream := strm; pr_st := s' |}) in
+  match pk e with
+  | 30 => (* ProcDo: a = stream, b = seq, c = action index, d = kind + 8*busy *)
+      let kind := pd e mod 8 in
+      let busy := 8 <=? pd e in
+      let ev := {| pseq := (if kind =? 1 then 0 else pb e); pkind := kind |} in
+      let strm := if kind =? 1 then pr_stream cur else pa e in
+      (* an event entering the chain: taken from the stream (empty stack) or pushed by Spawn (inside a Do) *)
+      let st1 :=
+        match stack st with
+        | [] =>
+            (* a new stream: nothing may be held over from the previous one *)
+            let st0 := if pr_stream cur =? strm then st
+                       else {| nact := nact st; stack := []; held := held st; lasttaken := 0; outs := outs st;
+                               dropped := dropped st; pcrashed := pcrashed st |} in
+            if negb (pr_stream cur =? strm) && match held st with [] => false | _ :: _ => true end then None
+            else pstep st0 (PTake ev (pc e))
+        | f :: _ =>
+            match fph f with
+            | InDo => pstep st (PPush ev (pc e))
+            | _ => Some st
+            end
+        end in
+      match st1 with
+      | Some s1 => match pstep s1 (PDo ev (pc e) busy) with Some s2 => upd s2 strm | None => None end
+      | None => None
+      end
+  | 31 => (* ProcResult: d = result *)
+      match pres_of_Z (pd e), stack st with
+      | Some r, f :: _ => match pstep st (PResult (fev f) (pc e) r) with
+                          | Some s' => if (pseq (fev f) =? pb e) || (pkind (fev f) =? 1) then upd s' (pr_stream cur) else None
+                          | None => None
+                          end
+      | _, _ => None
+      end
+  | 32 => (* ProcOut: c = kind *)
+      let ev := {| pseq := (if pc e =? 1 then 0 else pb e); pkind := pc e |} in
+      (* with no actions at all the event taken from the stream goes straight to the output *)
+      let st0 := match stack st with
+                 | [] => if nact st =? 0
+                         then (let base := if pr_stream cur =? pa e then st
+                                           else {| nact := nact st; stack := []; held := held st; lasttaken := 0; outs := outs st;
+                                                   dropped := dropped st; pcrashed := pcrashed st |} in
+                               pstep base (PTake ev 0))
+                         else None
+                 | f :: _ =>
+                     (* a child spawned by the last action leaves the chain at once: no Do precedes its Out *)
+                     match fph f with
+                     | InDo => if pc e =? 1 then pstep st (PPush ev (nact st)) else None
+                     | _ => Some st
+                     end
+                 end in
+      match st0 with
+      | Some s0 => match pstep s0 (POut ev) with Some s' => upd s' (if pc e =? 1 then pr_stream cur else pa e) | None => None end
+      | None => None
+      end
+  | 35 => (* Propagate: b = seq, c = next action index *)
+      match held_at (held st) (pc e - 1) with
+      | Some h => if pseq h =? pb e
+                  then match pstep st (PPropagate h (pc e)) with Some s' => upd s' (pr_stream cur) | None => None end
+                  else None
+      | None => None
+      end
+  | 36 => match stack st with
+          | f :: _ => match pstep st (PSpawn (fev f) (pc e)) with Some s' => upd s' (pr_stream cur) | None => None end
+          | [] => None
+          end
+  | _ => Some ps
+  end.
+
+Fixpoint run_procs (n : Z) (ps : list (Z * procst)) (es : list pentry) (k : Z) : Z * bool :=
+  match es with
+  | [] => (k, true)
+  | e :: r => match proc_step n ps e with
+              | Some ps' => run_procs n ps' r (k + 1)
+              | None => (k, false)
+              end
+  end.
 
 (* ---- helpers -------------------------------------------------------------------------------- *)
 Definition key_eqb (a b : Z * Z) : bool := (fst a =? fst b) && (snd a =? snd b).
@@ -221,16 +313,25 @@ Definition lts_ok (atomic : bool) (c : pcfg) (es : list pentry) : bool * sx :=
   let '(cm, cd) := batcher_cfgs c atomic in
   let '(n1, s1, ok1) := if 1 <=? p_outkind c then run_entries cm 0 (init cm) be 0 else (0, init cm, true) in
   let '(n2, s2, ok2) := if p_deadq c then run_entries cd 1 (init cd) be 0 else (0, init cd, true) in
-  (ok && negb (scrashed t) && ok1 && ok2 && negb (crashed s1) && negb (crashed s2),
-   SL [SL [of_bool ok; SZ n; of_bool (scrashed t)]; summary n1 s1 ok1; summary n2 s2 ok2]).
+  let '(n3, ok3) := run_procs (p_actions c) [] es 0 in
+  (ok && negb (scrashed t) && ok1 && ok2 && negb (crashed s1) && negb (crashed s2) && ok3,
+   SL [SL [of_bool ok; SZ n; of_bool (scrashed t)]; summary n1 s1 ok1; summary n2 s2 ok2; SL [of_bool ok3; SZ n3]]).
 
-Definition pipe_run (atomic : bool) (mon : pcfg -> list pentry -> bool) (case obs : sx) : verdict :=
+(* a monitor set = list of (monitor id, verdict); the ids of the failing ones are reported in the
+   model field of a Violates verdict (known findings are matched on them) *)
+Definition failing (ms : list (Z * bool)) : list Z :=
+  flat_map (fun m : Z * bool => if snd m then @nil Z else [fst m]) ms.
+
+Definition pipe_run (atomic : bool) (mon : pcfg -> list pentry -> list (Z * bool)) (case obs : sx) : verdict :=
   match case, as_list pentry_of_sx obs with
   | SL (cs :: _), Some es =>
       match pcfg_of_sx cs with
       | Some c =>
           let '(ok, m) := lts_ok atomic c es in
-          if mon c es then (if ok then Agree else Differ m) else Violates m
+          match failing (mon c es) with
+          | [] => if ok then Agree else Differ m
+          | fs => Violates (SL [SL (map SZ fs); m])
+          end
       | None => BadCase
       end
   | _, _ => BadCase
@@ -238,15 +339,19 @@ Definition pipe_run (atomic : bool) (mon : pcfg -> list pentry -> bool) (case ob
 
 Definition quiescent (es : list pentry) : bool := no_kind 103 es.
 
-Definition c02_mon (c : pcfg) (es : list pentry) : bool :=
-  m_no_wedge es && m_commits_increasing es [] [] && nodup_keys (input_commits es) && m_conservation es.
-Definition c01_mon (c : pcfg) (es : list pentry) : bool :=
-  m_no_wedge es && m_frontier es [] [] [] &&
-  ((p_outkind c =? 0) ||
-   (m_commit_via_batcher es [] && m_outend_before_commit (of_b 0 (bentries es)) [] [] [] &&
-    m_outend_before_commit (of_b 1 (bentries es)) [] [] [])).
-Definition c05_mon (c : pcfg) (es : list pentry) : bool := m_no_wedge es && m_pool_conservation true es.
-Definition c04_mon (c : pcfg) (es : list pentry) : bool := m_no_wedge es && m_conservation es.
-Definition c10_mon (c : pcfg) (es : list pentry) : bool := m_no_wedge es && m_source_frontier es [] [] [].
-Definition c13_mon (c : pcfg) (es : list pentry) : bool := m_no_wedge es && m_timeout_to_busy es.
-Definition c15_mon (c : pcfg) (es : list pentry) : bool := m_no_wedge es && m_single_stream es [] && m_timeout_to_busy es.
+(* monitor ids: 1 wedge/panic observed, 2 per-stream commit order, 3 commit twice, 4 conservation,
+   5 frontier, 6 commit not via an acknowledged batch, 7 pool conservation, 8 per-source frontier (spread),
+   9 time-out to an idle action, 10 busy action saw another stream *)
+Definition c02_mon (c : pcfg) (es : list pentry) : list (Z * bool) :=
+  [(1, m_no_wedge es); (2, m_commits_increasing es [] []); (3, nodup_keys (input_commits es)); (4, m_conservation es)].
+Definition c01_mon (c : pcfg) (es : list pentry) : list (Z * bool) :=
+  [(1, m_no_wedge es); (5, m_frontier es [] [] []);
+   (6, (p_outkind c =? 0) ||
+       (m_commit_via_batcher es [] && m_outend_before_commit (of_b 0 (bentries es)) [] [] [] &&
+        m_outend_before_commit (of_b 1 (bentries es)) [] [] []))].
+Definition c05_mon (c : pcfg) (es : list pentry) : list (Z * bool) := [(1, m_no_wedge es); (7, m_pool_conservation true es)].
+Definition c04_mon (c : pcfg) (es : list pentry) : list (Z * bool) := [(1, m_no_wedge es); (4, m_conservation es)].
+Definition c10_mon (c : pcfg) (es : list pentry) : list (Z * bool) := [(1, m_no_wedge es); (8, m_source_frontier es [] [] [])].
+Definition c13_mon (c : pcfg) (es : list pentry) : list (Z * bool) := [(1, m_no_wedge es); (9, m_timeout_to_busy es)].
+Definition c15_mon (c : pcfg) (es : list pentry) : list (Z * bool) :=
+  [(1, m_no_wedge es); (10, m_single_stream es []); (9, m_timeout_to_busy es)].
